@@ -72,7 +72,9 @@ def impl_state(model, intern):
             r = s._impl.own_refs[rn]
             refs.append("%s:%s:%d" % (rn, "d" if r.is_derived() else "o", intern(ref_key(r))))
         rows.append("%s bases=%s mro=%s cells=%s refs=%s" % (path, bases, mro, ",".join(cells), ",".join(sorted(refs))))
-    return " | ".join(sorted(rows)) + " || globals=" + ",".join(sorted(k for k in model.refs if not k.startswith("__")))
+    # `__builtins__` is the one model-level reference modelx creates itself; every other name - `__d__` too - is the
+    # user's (`model.name = value` tests no name)
+    return " | ".join(sorted(rows)) + " || globals=" + ",".join(sorted(k for k in model.refs if k != "__builtins__"))
 
 
 def is_obj(v):
